@@ -44,7 +44,7 @@
      means "no membership-change entry with index in the window" additionally needs
      slice correctness (C14). *)
 From RV Require Import Base.Prelude Base.IdSet M.Util M.Proto M.MemStorage M.Progress M.RaftLog
-  M.ConfChange M.Msg M.Raft M.RaftProofs M.RaftProofsC09.
+  M.ConfChange M.Msg M.Raft M.RawNode M.RaftProofs M.RaftProofsC09.
 From RecordUpdate Require Import RecordSet.
 Import RecordSetNotations.
 Local Open Scope N_scope.
@@ -247,6 +247,122 @@ Example C09_auto_leave_example :
       = [(4, EntryConfChangeV2, [])].
 Proof. eexists. split; [vm_compute; reflexivity|]. vm_compute. repeat split. Qed.
 
+(* ------------------------------------------------------------------ *)
+(* the leader invariant "r_state r = Leader -> ConfBound r" is kept by EVERY API function
+   of the node model.  LogBounded of the pre-state is needed only where an election can
+   be won inside the call (become_leader sets pending_conf_index := last_index). *)
+
+Theorem C09_leader_bound_step :
+  forall r m r' c,
+  step r m = Ok (r', c) -> LogBounded (r_log r) ->
+  (r_state r = Leader -> ConfBound r) -> (r_state r' = Leader -> ConfBound r').
+Proof. exact step_LInv. Qed.
+Print Assumptions C09_leader_bound_step.
+
+Theorem C09_leader_bound_tick :
+  forall r r' b,
+  tick r = Ok (r', b) -> LogBounded (r_log r) ->
+  (r_state r = Leader -> ConfBound r) -> (r_state r' = Leader -> ConfBound r').
+Proof. exact tick_LInv. Qed.
+Print Assumptions C09_leader_bound_tick.
+
+Theorem C09_leader_bound_commit_apply :
+  forall r app r',
+  commit_apply r app = Ok r' ->
+  (r_state r = Leader -> ConfBound r) -> (r_state r' = Leader -> ConfBound r').
+Proof. exact commit_apply_LInv. Qed.
+Print Assumptions C09_leader_bound_commit_apply.
+
+Theorem C09_leader_bound_apply_conf_change :
+  forall r cc r' ocs,
+  raft_apply_conf_change r cc = Ok (r', ocs) ->
+  (r_state r = Leader -> ConfBound r) -> (r_state r' = Leader -> ConfBound r').
+Proof. exact raft_apply_conf_change_LInv. Qed.
+Print Assumptions C09_leader_bound_apply_conf_change.
+
+Theorem C09_leader_bound_on_persist_entries :
+  forall r i t r',
+  on_persist_entries r i t = Ok r' ->
+  (r_state r = Leader -> ConfBound r) -> (r_state r' = Leader -> ConfBound r').
+Proof. exact on_persist_entries_LInv. Qed.
+Print Assumptions C09_leader_bound_on_persist_entries.
+
+Theorem C09_leader_bound_on_persist_snap :
+  forall r i r',
+  on_persist_snap r i = Ok r' ->
+  (r_state r = Leader -> ConfBound r) -> (r_state r' = Leader -> ConfBound r').
+Proof. exact on_persist_snap_LInv. Qed.
+Print Assumptions C09_leader_bound_on_persist_snap.
+
+Theorem C09_leader_bound_misc_api :
+  (forall r hs r', load_state r hs = Ok r' -> LInv r -> LInv r') /\
+  (forall r r' c, request_snapshot r = Ok (r', c) -> LInv r -> LInv r') /\
+  (forall r r', ping r = Ok r' -> LInv r -> LInv r') /\
+  (forall r t c r', adjust_max_inflight_msgs r t c = Ok r' -> LInv r -> LInv r') /\
+  (forall r, LInv r -> LInv (maybe_free_inflight_buffers r)) /\
+  (forall r k, LInv r -> LInv (set_max_apply_unpersisted_log_limit r k)) /\
+  (forall r e r', enable_group_commit r e = Ok r' -> LInv r -> LInv r') /\
+  (forall r ids r', assign_commit_groups r ids = Ok r' -> LInv r -> LInv r').
+Proof. exact misc_api_LInv. Qed.
+Print Assumptions C09_leader_bound_misc_api.
+
+(* LInv r := r_state r = Leader -> ConfBound r;  RInv n := LInv (rn_raft n);
+   RB n := LogBounded (r_log (rn_raft n)) *)
+Theorem C09_LInv_def : forall r, LInv r <-> (r_state r = Leader -> ConfBound r).
+Proof. intros r. unfold LInv. reflexivity. Qed.
+Print Assumptions C09_LInv_def.
+
+Theorem C09_RInv_def :
+  forall n, (RInv n <-> (r_state (rn_raft n) = Leader -> ConfBound (rn_raft n))) /\
+            (RB n <-> LogBounded (r_log (rn_raft n))).
+Proof. intros n. unfold RInv, RB, LInv. split; reflexivity. Qed.
+Print Assumptions C09_RInv_def.
+
+(* the whole RawNode API *)
+Theorem C09_leader_bound_rawnode :
+  (forall n m n' c, rn_step n m = Ok (n', c) -> RB n -> RInv n -> RInv n') /\
+  (forall n n' b, rn_tick n = Ok (n', b) -> RB n -> RInv n -> RInv n') /\
+  (forall n n' c, rn_campaign n = Ok (n', c) -> RB n -> RInv n -> RInv n') /\
+  (forall n ctx data n' c, rn_propose n ctx data = Ok (n', c) -> RB n -> RInv n -> RInv n') /\
+  (forall n ctx data ty ci n' c,
+     rn_propose_conf_change n ctx data ty ci = Ok (n', c) -> RB n -> RInv n -> RInv n') /\
+  (forall n cc n' ocs, rn_apply_conf_change n cc = Ok (n', ocs) -> RInv n -> RInv n') /\
+  (forall n n', rn_ping n = Ok n' -> RInv n -> RInv n') /\
+  (forall n n' rd, rn_ready n = Ok (n', rd) -> RInv n -> RInv n') /\
+  (forall n k n', rn_on_persist_ready n k = Ok n' -> RInv n -> RInv n') /\
+  (forall n rd n' lr, rn_advance_append n rd = Ok (n', lr) -> RInv n -> RInv n') /\
+  (forall n rd n', rn_advance_append_async n rd = Ok n' -> RInv n -> RInv n') /\
+  (forall n app n', rn_advance_apply_to n app = Ok n' -> RInv n -> RInv n') /\
+  (forall n n', rn_advance_apply n = Ok n' -> RInv n -> RInv n') /\
+  (forall n rd n' lr, rn_advance n rd = Ok (n', lr) -> RInv n -> RInv n') /\
+  (forall n id n', rn_report_unreachable n id = Ok n' -> RB n -> RInv n -> RInv n') /\
+  (forall n id f n', rn_report_snapshot n id f = Ok n' -> RB n -> RInv n -> RInv n') /\
+  (forall n n' c, rn_request_snapshot n = Ok (n', c) -> RInv n -> RInv n') /\
+  (forall n t n', rn_transfer_leader n t = Ok n' -> RB n -> RInv n -> RInv n') /\
+  (forall n ctx n', rn_read_index n ctx = Ok n' -> RB n -> RInv n -> RInv n').
+Proof.
+  exact (conj rn_step_RInv (conj rn_tick_RInv (conj rn_campaign_RInv (conj rn_propose_RInv
+        (conj rn_propose_conf_change_RInv (conj rn_apply_conf_change_RInv (conj rn_ping_RInv
+        (conj rn_ready_RInv (conj rn_on_persist_ready_RInv (conj rn_advance_append_RInv
+        (conj rn_advance_append_async_RInv (conj rn_advance_apply_to_RInv
+        (conj rn_advance_apply_RInv (conj rn_advance_RInv (conj rn_report_unreachable_RInv
+        (conj rn_report_snapshot_RInv (conj rn_request_snapshot_RInv
+        (conj rn_transfer_leader_RInv rn_read_index_RInv)))))))))))))))))).
+Qed.
+Print Assumptions C09_leader_bound_rawnode.
+
+(* Observation (not a defect of the mechanism, but of the literal wording of the first
+   clause): a leader's WHOLE log can hold two membership-change entries above its own
+   applied index - e.g. a node restarted with a lagging commit/applied index that then
+   wins an election.  pending_conf_index = 3 covers both, so no further change is
+   accepted until applied reaches 3. *)
+Example C09_whole_log_can_hold_two :
+  exists r', hup C09Samples.s_solo false = Ok r' /\ r_state r' = Leader /\
+    applied (r_log r') = 1 /\ r_pending_conf_index r' = 3 /\
+    map (fun e => (e_index e, is_conf_entry e)) (entries (store (r_log r')))
+      = [(1, false); (2, true); (3, true)].
+Proof. eexists. split; [vm_compute; reflexivity|]. vm_compute. repeat split. Qed.
+
 (* ================================================================== *)
 (* 3. no campaign while a committed membership change is unapplied *)
 
@@ -322,6 +438,35 @@ Proof.
   split; [vm_compute; reflexivity|]. split; [vm_compute; reflexivity|].
   eexists. split; [vm_compute; reflexivity|]. vm_compute. split; reflexivity.
 Qed.
+
+(* a positive scan is witnessed by a membership-change entry the log really holds *)
+Theorem C09_has_unapplied_true_witness :
+  forall r lo hi,
+  has_unapplied_conf_changes r lo hi = Ok true ->
+  exists e, (In e (u_entries (unst (r_log r))) \/ In e (entries (store (r_log r)))) /\
+            is_conf_entry e = true.
+Proof. exact has_unapplied_true_witness. Qed.
+Print Assumptions C09_has_unapplied_true_witness.
+
+(* Through Raft::step, for every state and message: if the node ends up (pre-)candidate
+   then either nothing started (same role, same term), or it is a pre-candidate that just
+   won the pre-vote, or hup ran on the post-prologue state r1 (r itself, or r stepped down
+   to the message's higher term) and its scan answered false. *)
+Theorem C09_step_campaign_guard :
+  forall r m r' c,
+  step r m = Ok (r', c) ->
+  (r_state r' = Candidate \/ r_state r' = PreCandidate) ->
+  (r_state r' = r_state r /\ r_term r' = r_term r) \/
+  (r_state r = PreCandidate /\ r_state r' = Candidate /\ m_type m = MsgRequestPreVoteResponse) \/
+  (exists r1 tl,
+     (r1 = r \/ exists l, r_term r < m_term m /\ become_follower r (m_term m) l = Ok r1) /\
+     is_leader r1 = false /\
+     has_unapplied_conf_changes r1
+       (match u_maybe_first_index (unst (r_log r1)) with Some i => i | None => applied (r_log r1) + 1 end)
+       (committed (r_log r1) + 1) = Ok false /\
+     hup r1 tl = Ok r' /\ (m_type m = MsgHup \/ m_type m = MsgTimeoutNow)).
+Proof. exact step_campaign_guard. Qed.
+Print Assumptions C09_step_campaign_guard.
 
 (* ================================================================== *)
 (* 4. a (pre-)candidate learning of a committed membership change steps down *)
